@@ -507,11 +507,8 @@ double iwstrtod(const char *str, char **end) {
     }
 
     if (iwchars_is_digit(*p)) {
-      while (*p == '0') {
+      while (*p == '0' && iwchars_is_digit(*(p + 1))) { // keep the last digit: "1e0]" must not eat the ']'
         ++p;
-      }
-      if (*p == '\0') {
-        --p;
       }
       e = (*p++ - '0');
       while (*p && iwchars_is_digit(*p)) {
